@@ -110,6 +110,11 @@ LET: dict = {
     'BDqT': {'k': 'bdiagop', 'blocks': ['Q1T', 'Q2T']},
     'BDwq': {'k': 'bdiagop', 'blocks': ['W', 'W']},
     'BRq': {'k': 'row', 'blocks': ['Pl', 'Pl']},
+    # blocks that become identities only through their own reduce() (rule-cancelled products, no-op index / ravel)
+    'BDm': {'k': 'bdiagop', 'blocks': ['M23', 'M23']},
+    'BDmI': {'k': 'bdiagop', 'blocks': ['M32', 'M32']},
+    'BDnoop': {'k': 'bdiagop', 'blocks': ['X3id', 'R6']},
+    'BDii': {'k': 'bdiagop', 'blocks': {'dict': {'a': 'BDi', 'b': 'I2'}}},
     'BDn': {'k': 'bdiagop', 'blocks': [['A22', 'B22'], 'S22']},
     'BDn2': {'k': 'bdiagop', 'blocks': [['B22', 'A22'], 'A22']},
     'BRn': {'k': 'row', 'blocks': [['A22', 'B22'], 'S22']},
@@ -238,6 +243,9 @@ PATTERNS = {
     'moveaxis-pair': ['M32', 'M23'],
     'moveaxis-pair2': ['M23', 'M32'],
     'blockdiag-rot-rotT': ['BDq', 'BDqT'],
+    'blockdiag-moveaxis-cancel': ['BDmI', 'BDm'],
+    'blockdiag-noop-blocks': ['BDnoop'],
+    'blockdiag-nested-identities': ['BDii'],
     # near misses: pairs that look like a pattern but must NOT be rewritten (or only partly)
     'near-indexT-index-int-axis': ['X23iT', 'X23i'],
     'near-indexT-index-strided': ['X43sT', 'X43s'],
